@@ -7,6 +7,7 @@ from typing import Dict, List, Optional, Set, Tuple
 
 from ..core import AnalysisError, RuleSpec
 from ..pymodel import call_name
+from .. import astq
 
 EXPLANATION = (
     "Rules on how the per-scope name tables are built in the correlate methods. R1 (alias rule): a "
@@ -229,15 +230,28 @@ def r5_type_extension_order(ctx, rep):
     py = ctx.py
     for q in ("FortranCodeUnit.correlate", "FortranBlockData.correlate"):
         fn = py.func(q)
-        t = ast.unparse(fn)
-        ok = "typeorder = toposort.toposort_flatten(typelist)" in t and \
-            re.search(r"for dtype in typeorder:\s+(dtype\.visible = True\s+)?if dtype in self\.types:\s+dtype\.correlate\(project\)", t) is not None
+        # the loop that correlates types iterates a toposorted order of the extension map
+        loops = [n for n in ast.walk(fn) if isinstance(n, ast.For) and isinstance(n.target, ast.Name) and any(
+            isinstance(c, ast.Call) and isinstance(c.func, ast.Attribute) and c.func.attr == "correlate"
+            and isinstance(c.func.value, ast.Name) and c.func.value.id == n.target.id for c in ast.walk(n))]
+        topo = [c for l in loops for e in astq.expand_locals(l.iter, fn) for c in ast.walk(e)
+                if isinstance(c, ast.Call) and call_name(c).split(".")[-1] in ("toposort_flatten", "toposort")]
+        ok = bool(topo)
         rep.ob(f"{q}: types correlated in extension order", ok, "", py.nloc(fn))
-        ok = "dtype.extends = self.all_types[dtype.extends.lower()]" in t and "typelist[dtype] = set([dtype.extends])" in t
+        # the extension map: typelist[<t>] = {<t>.extends}, with the parent looked up lower-cased in the merged table
+        mapname = ast.unparse(topo[0].args[0]) if topo and topo[0].args else "typelist"
+        stores = [n for n in ast.walk(fn) if isinstance(n, ast.Assign) and isinstance(n.targets[0], ast.Subscript)
+                  and ast.unparse(n.targets[0].value) == mapname and ".extends" in ast.unparse(n.value)]
+        lookups = [n for n in ast.walk(fn) if isinstance(n, ast.Assign) and ast.unparse(n.targets[0]).endswith(".extends")
+                   and isinstance(n.value, ast.Subscript) and ast.unparse(n.value.value).endswith("all_types")
+                   and any(isinstance(c, ast.Call) and isinstance(c.func, ast.Attribute) and c.func.attr in ("lower", "casefold")
+                           for c in ast.walk(n.value.slice))]
+        ok = bool(stores) and bool(lookups)
         rep.ob(f"{q}: parent looked up case-insensitively in the merged table", ok, "", py.nloc(fn))
         # the lookup happens after USE merging
-        use_line = max([n.lineno for n in ast.walk(fn) if isinstance(n, ast.Call) and "all_types.update(types)" in ast.unparse(n)] or [0])
-        ext_line = min([n.lineno for n in ast.walk(fn) if isinstance(n, ast.Assign) and ast.unparse(n.targets[0]) == "typelist"] or [0])
+        use_line = max([n.lineno for n in ast.walk(fn) if isinstance(n, ast.Call) and call_name(n).endswith("all_types.update")] or [0])
+        ext_line = min([n.lineno for n in ast.walk(fn) if isinstance(n, (ast.Assign, ast.AnnAssign)) and
+                        ast.unparse(n.targets[0] if isinstance(n, ast.Assign) else n.target) == mapname] or [0])
         ok = 0 < use_line < ext_line
         rep.ob(f"{q}: parent types resolved after USE association", ok,
                "an extended type imported by USE is found" if ok else "parent lookup precedes USE merging", py.nloc(fn))
